@@ -153,8 +153,10 @@ func vfEmittedRelated(l string, e1, e2 []vfEmit, z vfShiftT) {
 	}
 }
 
-func vfC12Input(shapes []vfShape, cmds []uint8) {
-	k1, k2, em1, em2, z := vfPairOfStates(shapes, 1, []int{1400}, 0)
+func vfC12Input(shapes []vfShape, cmds []uint8) { vfC12InputCfg(shapes, cmds, 1, []int{1400}) }
+
+func vfC12InputCfg(shapes []vfShape, cmds []uint8, nc int, mtus []int) {
+	k1, k2, em1, em2, z := vfPairOfStates(shapes, nc, mtus, 0)
 	vfAssume(k1.probe == 0)
 	var f vfDatagramFields
 	f.conv = vfU32("dg_conv")
@@ -247,6 +249,12 @@ func vfH_C12_ack_functions() {
 	}
 	vfReach("post")
 	vfRelated("c12/ackfn", k1, k2, z)
+}
+
+// congestion control on: the window growth on a cumulative acknowledgement depends on "has
+// snd_una advanced", a comparison of two sequence numbers
+func vfH_C12_input_cc() {
+	vfC12InputCfg([]vfShape{{1, 0, 0, 0, 0}}, []uint8{IKCP_CMD_WINS}, 0, []int{28})
 }
 
 // relational queries are several times more expensive than single-copy ones: small families (quick)
